@@ -73,6 +73,11 @@ Receivers(g) ==
     [] g = "duration" -> << "dur" >>
     [] OTHER          -> << "-" >>
 
+\* further receivers of single methods: replacement-field numbers at and beyond the int64 boundary for str.format
+\* (s_fmt63 = "{9223372036854775808}", s_fmt19 = "{9999999999999999999}", s_fmt20 = "{18446744073709551616}")
+ExtraReceivers(g, n) == IF g = "string" /\ n = "format" THEN << "s_fmt63", "s_fmt19", "s_fmt20" >> ELSE << >>
+RecvOf(g, n) == Receivers(g) \o ExtraReceivers(g, n)
+
 \* keyword names: the parameter names doc/spec.md and the library documentation give to
 \* built-ins, plus a name nobody accepts and the empty name
 KwNames == << "x", "key", "reverse", "sep", "base", "default", "start", "step", "name", "iterable",
